@@ -37,7 +37,10 @@ fn natural_lines() -> Vec<String> {
 fn corpus() -> BoxedStrategy<Vec<Vec<String>>> {
     let small = select(LETTER_SETS).prop_flat_map(|letters| {
         let word = prop_oneof![16 => proptest::collection::vec(select(letters), 1..=7), 1 => proptest::collection::vec(select(letters), 8..=20)].prop_map(|v| v.concat());
-        let line = (proptest::collection::vec(word, 1..=5), any::<bool>()).prop_map(|(w, dbl)| w.join(if dbl { "  " } else { " " }));
+        let line = prop_oneof![
+            12 => (proptest::collection::vec(word, 1..=5), any::<bool>()).prop_map(|(w, dbl)| w.join(if dbl { "  " } else { " " })),
+            1 => proptest::sample::select(vec!["", " ", "\t ", " a ", "\u{3000}b\u{a0}"]).prop_map(str::to_string),
+        ];
         prop_oneof![
             12 => proptest::collection::vec(proptest::collection::vec(line.clone(), 0..=4), 1..=2),
             1 => proptest::collection::vec(proptest::collection::vec(line, 0..=20), 1..=3),
